@@ -252,9 +252,28 @@ def copy_discipline(ctx):
     ctx.floor('COPY/System.atoms_prop', n, 2)
     _returns_fresh(ctx, AT, 'Atoms.__deepcopy__', 'COPY', 'a deep copy of Atoms is built from deep-copied arrays')
     dc = ctx.fn(AT, 'Atoms.__deepcopy__')
-    t = norm(dc)
-    ok = "atype = deepcopy(self.view['atype'])" in t and "pos = deepcopy(self.view['pos'])" in t and 'd[key] = deepcopy(self.view[key])' in t and 'for key in self.view' in t
-    ctx.ob('COPY', AT + '::Atoms.__deepcopy__', 'every property (atype, pos and all others) is deep-copied into the new Atoms', ok, node=dc)
+    # by evaluation: a model Atoms with four properties, a copying stub for deepcopy and a recording constructor
+    import numpy as np
+    from ..symx import SymEval, SymObj, module_aliases, symarray, equal, Opaque, WouldRaise, arr
+    view = {'atype': arr([1, 2, 1]), 'pos': symarray('p', (3, 3), real=True), 'charge': symarray('q', (3,), real=True), 'stress': symarray('s', (3, 2, 2), real=True)}
+    made, copied = [], []
+
+    def deepcopy_(x, memo=None):
+        copied.append(x)
+        return x.copy() if isinstance(x, np.ndarray) else x
+    ev = SymEval(module_aliases(ctx.mod(AT)))
+    ev.globals = {'deepcopy': deepcopy_, 'Atoms': lambda *a, **k: (made.append((a, k)) or 'NEW'), 'OrderedDict': lambda *a, **k: dict(*a, **k), 'dict': dict}
+    try:
+        live = [q for q in ev.run_fn(dc, [SymObj(ctx.fn(AT, 'Atoms'), {'view': view}, 'self'), {}], {}) if q.done == 'return']
+    except (Opaque, WouldRaise) as e:
+        raise AnalysisError('Atoms.__deepcopy__: %s' % e)
+    ok = len(live) == 1 and live[0].ret == 'NEW' and len(made) == 1 and not made[0][0] and set(made[0][1]) == set(view)
+    if ok:
+        kw = made[0][1]
+        ok = all(isinstance(kw[k], np.ndarray) and equal(kw[k], view[k], deep=False) and not np.shares_memory(kw[k], view[k]) for k in view) \
+            and not any(np.shares_memory(kw[a], kw[b]) for a in view for b in view if a != b)
+    ctx.ob('COPY', AT + '::Atoms.__deepcopy__', 'every property (atype, pos and all others) is deep-copied into the new Atoms: the constructor gets, under each name, an array of its own with the same values', bool(ok),
+           'constructor calls: %s' % ([sorted(m[1]) for m in made],), node=dc)
     # set-mode with key and no index stores a copy of the caller's value
     p = ctx.fn(AT, 'Atoms.prop')
     st = [s for s in ast.walk(p) if isinstance(s, ast.Assign) and norm(s.targets[0]) == 'self.view[key]']
